@@ -109,6 +109,9 @@ func runC08(o *out, r *rng, thorough bool, replay string) {
 			sz = 50 + r.intn(300)
 		}
 		ps := genPowers(r, sz)
+		if i%3 == 1 {
+			ps = genPowersDominant(r, 2+r.intn(6), sweepBits(i/3)) // total bit length: native widths first, then swept
+		}
 		pt, err := mkPowerTable(ps)
 		if err != nil {
 			o.violate("power table of positive powers is accepted", "PowerTable.Add", fmt.Sprint(ps), err.Error())
